@@ -187,6 +187,11 @@ func cmdCheck(args []string) int {
 	// ---- native confirmation of violations and validation of witnesses ----
 	type vkey struct{ h, l, in, tags string }
 	distinct := map[vkey]*Violation{}
+	// further instances of the same violation (other inputs): replayed natively too, so that one
+	// instance that depends on something the native run does not share (allocator growth, ...) does
+	// not hide the others
+	const maxAlt = 3
+	alts := map[vkey][]*Violation{}
 	var order []vkey
 	for _, r := range results {
 		for i := range r.Violations {
@@ -195,6 +200,8 @@ func cmdCheck(args []string) int {
 			if _, ok := distinct[k]; !ok {
 				distinct[k] = v
 				order = append(order, k)
+			} else if len(alts[k]) < maxAlt {
+				alts[k] = append(alts[k], v)
 			}
 		}
 	}
@@ -212,6 +219,9 @@ func cmdCheck(args []string) int {
 			}
 		}
 		byDir[dir] = append(byDir[dir], nativeVec{ID: fmt.Sprintf("viol-%d", i), Harness: v.Harness, Tier: tierN, Events: v.Events, Confirm: true})
+		for j, a := range alts[k] {
+			byDir[dir] = append(byDir[dir], nativeVec{ID: fmt.Sprintf("viol-%d-alt%d", i, j), Harness: a.Harness, Tier: tierN, Events: a.Events, Confirm: true})
+		}
 	}
 	for _, r := range results {
 		for i, w := range r.Witnesses {
@@ -277,16 +287,25 @@ func cmdCheck(args []string) int {
 	for i, k := range order {
 		v := distinct[k]
 		nr := native[fmt.Sprintf("viol-%d", i)]
-		confirmed := false
-		switch v.Kind {
-		case "assert":
-			confirmed = nr.Outcome == "assert:"+v.Label
-		case "panic":
-			confirmed = strings.HasPrefix(nr.Outcome, "panic:")
-		case "hang":
-			confirmed = nr.Outcome == "timeout"
-		case "deadlock":
-			confirmed = nr.Outcome == "timeout"
+		confirms := func(v *Violation, nr nativeResult) bool {
+			switch v.Kind {
+			case "assert":
+				return nr.Outcome == "assert:"+v.Label
+			case "panic":
+				return strings.HasPrefix(nr.Outcome, "panic:")
+			case "hang", "deadlock":
+				return nr.Outcome == "timeout"
+			}
+			return false
+		}
+		confirmed := confirms(v, nr)
+		if !confirmed {
+			for j, a := range alts[k] {
+				if anr := native[fmt.Sprintf("viol-%d-alt%d", i, j)]; confirms(a, anr) {
+					v, nr, confirmed = a, anr, true
+					break
+				}
+			}
 		}
 		if !confirmed && v.Sched {
 			// a schedule-dependent instance: the native run took another interleaving. If it belongs to a
